@@ -128,7 +128,9 @@ def convert_mps(prog, seed, w_prec=(2, 4, 8), a_prec=(2, 4, 8), per_channel=Fals
     xs = pitgen.example_inputs(prog, 1, seed)
     # inputs in the input quantizer's range [0, 1]
     xs = [x.abs().clamp(max=1.0) for x in xs]
-    kw = dict(input_example=xs[0], qinfo=get_default_qinfo(w_precision=tuple(w_prec),
+    from vf import neutral
+    ex = pitgen.example_inputs(prog, neutral.example_batch(seed), seed)[0].abs().clamp(max=1.0)
+    kw = dict(input_example=ex, qinfo=get_default_qinfo(w_precision=tuple(w_prec),
                                                            a_precision=tuple(a_prec)),
               w_search_type=MPSType.PER_CHANNEL if per_channel else MPSType.PER_LAYER,
               temperature=temperature, gumbel_softmax=gumbel, hard_softmax=hard,
